@@ -201,9 +201,15 @@ def h_blockshuffle(ctx):
 
     nb = len(occupied)
     ts = cfg["test_size"]
-    n_test = math.ceil(ts * nb) if isinstance(ts, float) else ts
     trs = cfg.get("train_size")
-    n_train = nb - n_test if trs is None else (math.floor(trs * nb) if isinstance(trs, float) else trs)
+    n_train = None if trs is None else (math.floor(trs * nb) if isinstance(trs, float) else trs)
+    if ts is None:
+        # scikit-learn: test_size defaults to the complement of train_size (0.1 only if both are None)
+        n_test = nb - n_train if n_train is not None else math.ceil(0.1 * nb)
+    else:
+        n_test = math.ceil(ts * nb) if isinstance(ts, float) else ts
+    if n_train is None:
+        n_train = nb - n_test
     try:
         splits, _ = _with_block_split(labels, run)
     except ValueError:
@@ -273,6 +279,8 @@ def _cfg_shuffle(tier, seed):
         return [
             {"n": 4, "blocks": 3, "n_splits": 2, "test_size": 0.34, "seed": 1, "balancing": 3},
             {"n": 4, "blocks": 4, "n_splits": 1, "test_size": 0.5, "seed": 5, "balancing": 1},
+            {"n": 4, "blocks": 4, "n_splits": 2, "test_size": None, "train_size": 0.5, "seed": 2, "balancing": 2},
+            {"n": 4, "blocks": 4, "n_splits": 1, "test_size": None, "train_size": 1, "seed": 4, "balancing": 1},
         ]
     out = []
     for n, blocks in ((5, 4), (6, 4), (6, 3)):
@@ -280,6 +288,9 @@ def _cfg_shuffle(tier, seed):
             for balancing in (1, 2, 3):
                 out.append({"n": n, "blocks": blocks, "n_splits": 2, "test_size": ts, "seed": seed + balancing, "balancing": balancing})
     out.append({"n": 5, "blocks": 4, "n_splits": 2, "test_size": 0.25, "train_size": 0.5, "seed": seed, "balancing": 2})
+    out.append({"n": 6, "blocks": 4, "n_splits": 2, "test_size": None, "train_size": 0.5, "seed": seed + 1, "balancing": 2})
+    out.append({"n": 5, "blocks": 4, "n_splits": 2, "test_size": None, "train_size": 2, "seed": seed + 2, "balancing": 1})
+    out.append({"n": 5, "blocks": 4, "n_splits": 2, "test_size": None, "seed": seed + 3, "balancing": 1})
     return out
 
 
